@@ -124,6 +124,10 @@ type editor struct {
 	// rootAttack makes the round end with a deletion, type change or emptying
 	// of one root (C11's subject; only counted here) and disables the guard.
 	rootAttack bool
+	// script, when non-nil, replaces the random edits of the round.
+	script func() ([]Applied, error)
+	// prefix, when non-nil, runs before the random edits of the round.
+	prefix func() ([]Applied, error)
 }
 
 // attackRoot deletes a root, replaces it by a file, or empties it.
@@ -151,6 +155,29 @@ func (e *editor) attackRoot() Applied {
 // re-taken as needed (the trees are small).
 func (e *editor) round(n int) ([]Applied, error) {
 	var done []Applied
+	record := func(a []Applied) {
+		for _, x := range a {
+			if x.Op != "none" {
+				e.log("  edit %s", x)
+				done = append(done, x)
+			}
+		}
+	}
+	if e.script != nil {
+		a, err := e.script()
+		if err != nil {
+			return done, err
+		}
+		record(a)
+		n = 0
+	}
+	if e.prefix != nil {
+		a, err := e.prefix()
+		if err != nil {
+			return done, err
+		}
+		record(a)
+	}
 	for i := 0; i < n; i++ {
 		a, err := e.one()
 		if err != nil {
@@ -196,12 +223,16 @@ func (e *editor) one() ([]Applied, error) {
 	root := e.roots.of(side)
 	roll := rng.Intn(100)
 	switch {
-	case roll < 45:
+	case roll < 38:
 		ed, _, err := fsx.RandomEdit(rng, root)
 		if err != nil {
 			return nil, err
 		}
 		return []Applied{{Side: side, Op: ed.Op, Path: ed.Path, Path2: ed.Path2}}, nil
+	case roll < 44:
+		return e.contentAndExec()
+	case roll < 47:
+		return e.bothIdentical(-1)
 	case roll < 58:
 		return e.conflictPair()
 	case roll < 62:
@@ -331,6 +362,125 @@ func (e *editor) deleteVersusModify() ([]Applied, error) {
 		return nil, nil
 	}
 	return []Applied{{Side: "both", Op: "delete-vs-modify", Path: p, Path2: delSide + " deleted " + target}}, nil
+}
+
+// contentAndExec changes, on ONE side, both the content and the executable
+// bit of a file the two roots agree on.
+func (e *editor) contentAndExec() ([]Applied, error) {
+	rng := e.rng
+	sa, sb, err := e.snaps()
+	if err != nil {
+		return nil, err
+	}
+	files := shared(sa, sb, 'f')
+	if len(files) == 0 {
+		return nil, nil
+	}
+	p := files[rng.Intn(len(files))]
+	side := []string{"alpha", "beta"}[rng.Intn(2)]
+	perm := os.FileMode(sa[p].Perm & 0o777)
+	if perm&0o111 != 0 {
+		perm &^= 0o111
+	} else {
+		perm |= []os.FileMode{0o100, 0o111, 0o110}[rng.Intn(3)]
+	}
+	full := fullPath(e.roots.of(side), p)
+	if rng.Intn(2) == 0 {
+		// in place: same inode, new bytes, new mode, mtime moved
+		if err := os.WriteFile(full, fsx.UniqueToken(rng, randSize(rng)), 0o644); err != nil {
+			return nil, nil
+		}
+		if err := os.Chmod(full, perm); err != nil {
+			return nil, err
+		}
+		if err := fsx.BumpMtime(full); err != nil {
+			return nil, err
+		}
+	} else if err := writeNew(rng, full, randSize(rng), perm); err != nil {
+		return nil, nil
+	}
+	return []Applied{{Side: side, Op: "edit-content-and-x", Path: p}}, nil
+}
+
+// bothIdentical makes the same change on both sides, so that a cycle has
+// nothing to propagate and only records the agreement: both create a file with
+// the same bytes (which 0), both rewrite an agreed file with the same new
+// bytes (1), both delete an agreed file (2). which < 0 picks one.
+func (e *editor) bothIdentical(which int) ([]Applied, error) {
+	rng := e.rng
+	sa, sb, err := e.snaps()
+	if err != nil {
+		return nil, err
+	}
+	files := shared(sa, sb, 'f')
+	dirs := append(shared(sa, sb, 'd'), "")
+	if which < 0 {
+		which = rng.Intn(3)
+	}
+	if which > 0 && len(files) == 0 {
+		which = 0
+	}
+	switch which {
+	case 0:
+		p := join(dirs[rng.Intn(len(dirs))], freshName(rng, "same"))
+		data := fsx.UniqueToken(rng, randSize(rng))
+		perm := []os.FileMode{0o644, 0o755}[rng.Intn(2)]
+		for _, root := range []string{e.roots.alpha, e.roots.beta} {
+			if err := os.WriteFile(fullPath(root, p), data, perm); err != nil {
+				return nil, nil
+			}
+			os.Chmod(fullPath(root, p), perm)
+		}
+		return []Applied{{Side: "both", Op: "both-create-identical", Path: p}}, nil
+	case 1:
+		p := files[rng.Intn(len(files))]
+		data := fsx.UniqueToken(rng, randSize(rng))
+		for _, root := range []string{e.roots.alpha, e.roots.beta} {
+			if err := os.WriteFile(fullPath(root, p), data, 0o644); err != nil {
+				return nil, nil
+			}
+			if err := fsx.BumpMtime(fullPath(root, p)); err != nil {
+				return nil, err
+			}
+		}
+		return []Applied{{Side: "both", Op: "both-modify-identical", Path: p}}, nil
+	default:
+		p := files[rng.Intn(len(files))]
+		os.Remove(fullPath(e.roots.alpha, p))
+		os.Remove(fullPath(e.roots.beta, p))
+		return []Applied{{Side: "both", Op: "both-delete", Path: p}}, nil
+	}
+}
+
+// massCreate creates, on alpha, one new subtree holding n directories (chains
+// and fans) and a few files.
+func (e *editor) massCreate(n int) ([]Applied, error) {
+	rng := e.rng
+	top := freshName(rng, "mass")
+	base := fullPath(e.roots.alpha, top)
+	if err := os.Mkdir(base, 0o755); err != nil {
+		return nil, err
+	}
+	made := 1
+	cur := base
+	for made < n {
+		switch rng.Intn(4) {
+		case 0:
+			cur = base
+		}
+		d := filepath.Join(cur, fmt.Sprintf("d%d", made))
+		if err := os.Mkdir(d, 0o755); err != nil {
+			return nil, err
+		}
+		made++
+		if rng.Intn(3) > 0 && strings.Count(d, "/") < strings.Count(base, "/")+12 {
+			cur = d
+		}
+	}
+	for i := 0; i < 4; i++ {
+		os.WriteFile(filepath.Join(base, fmt.Sprintf("file%d", i)), fsx.UniqueToken(rng, 100+rng.Intn(400)), 0o644)
+	}
+	return []Applied{{Side: "alpha", Op: "mass-create", Path: top, Path2: fmt.Sprintf("%d directories, 4 files", n)}}, nil
 }
 
 // resolveConflict performs the documented manual resolution of a conflict:
